@@ -1,5 +1,6 @@
 import Driver.Common
 import SSV.Model.Packet
+import SSV.Model.PacketLimit
 open SSV SSV.Packet
 
 /-! Line-protocol driver of the C05 packet model.  State: the current buffer and a saved wire packet. -/
@@ -208,6 +209,16 @@ def stepOpt (st : St) (fs : List String) : Option (St × String) :=
   | "maxheadroom" :: rest => do
     let m := maxHeadroom ⟨← argInt rest "af", ← argInt rest "ar"⟩ ⟨← argInt rest "bf", ← argInt rest "br"⟩
     pure (st, showHeadroom m)
+  | "limit" :: rest => do
+    let prog ← (match arg rest "prog" with
+      | some "g" => some SSV.Gen.C05.sessionRefreshGeneric
+      | some "m" => some SSV.Gen.C05.sessionRefreshMmsg
+      | _ => none)
+    let a0 ← (arg rest "a0").bind parseAddrPort
+    let evs ← arg rest "ev"
+    let events ← (if evs == "-" then some [] else (evs.splitOn ",").mapM parseAddrPort)
+    let stl := limRun (← argInt rest "mtu") prog a0 events
+    pure (st, s!"{stl.limit} {showAddrPort stl.dest}")
   | ["mps", mtu, fam] => do
     let mtu ← mtu.toInt?
     pure (st, toString (SSV.Gen.C05.maxPacketSizeForAddr mtu (fam == "4")))
